@@ -160,8 +160,16 @@ def check(r, ctx):
         if bad:
             raise Violation("number-format:" + bad[0][0], "not plain decimal notation: %r (decimals=%d)" % (
                 bad[:5], r["decimals"]))
+        from commonroad.common.file_writer import CommonRoadFileWriter
+        from commonroad.common.util import FileFormat
+        own = CommonRoadFileWriter.check_validity_of_commonroad_file(data, FileFormat.XML)
         sch = schema()
-        if not sch.validate(root):
+        ok = sch.validate(root)
+        if ok and own is not True:
+            # the library's own validity check reads the same shipped schema: it must not reject a valid file
+            raise Violation("own-validity-check-rejects-valid-file", "check_validity_of_commonroad_file returned %r for "
+                            "a file that validates against the shipped XSD" % (own,))
+        if not ok:
             err = sch.error_log[0]
             m = re.search(r"Element '([^']+)'", err.message)
             raise Violation("xsd:%s:%s" % (err.type_name, m.group(1) if m else "?"), "%s (line %d); %d errors" % (
